@@ -194,7 +194,13 @@ func waitObserver[T any](w *waitObs) ro.Observer[T] {
 			w.vals = append(w.vals, renderVal(v))
 			w.mu.Unlock()
 		},
-		func(ctx context.Context, err error) { terminal(ctx, renderErr(err)) },
+		func(ctx context.Context, err error) {
+			if err == nil {
+				terminal(ctx, "nil") // Error(nil): the error value a Collect-like consumer returns is nil
+			} else {
+				terminal(ctx, renderErr(err))
+			}
+		},
 		func(ctx context.Context) { terminal(ctx, "nil") },
 	)
 }
